@@ -290,6 +290,7 @@ fn p_type(c: &mut Cur) -> R<DataType> {
     };
     Ok(match w {
         "bool" => DataType::Boolean,
+        "null" => DataType::Null,
         "i8" => DataType::Int8,
         "i16" => DataType::Int16,
         "i32" => DataType::Int32,
@@ -443,6 +444,7 @@ fn s_type(dt: &DataType, o: &mut String) {
     };
     match dt {
         DataType::Boolean => o.push_str("bool"),
+        DataType::Null => o.push_str("null"),
         DataType::Int8 => o.push_str("i8"),
         DataType::Int16 => o.push_str("i16"),
         DataType::Int32 => o.push_str("i32"),
@@ -688,6 +690,9 @@ fn es<E: std::fmt::Display>(e: E) -> String {
 
 /// a "zero" value of a type (content of clean arrays under null parents)
 fn zero(dt: &DataType) -> V {
+    if matches!(dt, DataType::Null) {
+        return V::N;
+    }
     match dt {
         DataType::Utf8 | DataType::LargeUtf8 | DataType::Utf8View | DataType::Binary | DataType::LargeBinary | DataType::BinaryView => V::B(vec![]),
         DataType::FixedSizeBinary(n) => V::B(vec![0; *n as usize]),
@@ -703,6 +708,9 @@ fn zero(dt: &DataType) -> V {
 
 /// low-cardinality arbitrary value of a type, respecting nullability below it
 fn junk(dt: &DataType, nullable: bool, rng: &mut Rng) -> V {
+    if matches!(dt, DataType::Null) {
+        return V::N;
+    }
     if nullable && rng.chance(1, 4) {
         return V::N;
     }
@@ -1019,6 +1027,12 @@ fn build(dt: &DataType, vals: &[V], cx: &mut Cx) -> R<ArrayRef> {
     let n = vals.len();
     let valid: Vec<bool> = vals.iter().map(|v| !matches!(v, V::N)).collect();
     Ok(match dt {
+        DataType::Null => {
+            if valid.iter().any(|v| *v) {
+                return Err("null column with a value".into());
+            }
+            Arc::new(NullArray::new(n))
+        }
         DataType::Boolean => {
             let mut bits = Vec::with_capacity(n);
             for v in vals {
@@ -1203,6 +1217,14 @@ fn dump(a: &dyn Array, lo: usize, hi: usize, o: &mut String) {
         }};
     }
     match a.data_type() {
+        DataType::Null => {
+            for i in lo..hi {
+                if i > lo {
+                    o.push(',');
+                }
+                o.push('n');
+            }
+        }
         DataType::Boolean => rows!(a.as_boolean(), |i| o.push(if a.as_boolean().value(i) { '1' } else { '0' })),
         DataType::Decimal256(_, _) => rows!(a.as_primitive::<Decimal256Type>(), |i| write!(o, "{}", a.as_primitive::<Decimal256Type>().value(i)).unwrap()),
         DataType::Interval(IntervalUnit::DayTime) => rows!(a.as_primitive::<IntervalDayTimeType>(), |i| {
@@ -1359,11 +1381,17 @@ struct Props {
     par: usize,
     jo: u64,
     rg: usize,
+    /// how the ArrowWriter is finished: 0 into_inner, 1 finish + into_inner, 2 close (needs a shared sink)
+    fin: usize,
+    /// reader entry point: 0 builder, 1 ParquetRecordBatchReader::try_new, 2 builder with page index
+    rd: usize,
 }
 
 fn parse_props(s: &str, paths: &[ColumnPath]) -> R<Props> {
     let mut b = WriterProperties::builder().set_max_row_group_row_count(None);
     let (mut par, mut jo, mut rg) = (0usize, 0u64, 0usize);
+    let (mut fin, mut rd) = (0usize, 0usize);
+    let mut comp_name = String::new();
     let us = |v: &str| v.parse::<usize>().map_err(|_| format!("number '{}'", v));
     for kv in s.split(',') {
         let (k, v) = kv.split_once('=').ok_or("k=v")?;
@@ -1415,7 +1443,9 @@ fn parse_props(s: &str, paths: &[ColumnPath]) -> R<Props> {
                 let n = us(v)?;
                 b.set_max_row_group_bytes(if n == 0 { None } else { Some(n) })
             }
-            "comp" => b.set_compression(match v {
+            "comp" => {
+                comp_name = v.to_string();
+                b.set_compression(match v {
                 "UNCOMPRESSED" => Compression::UNCOMPRESSED,
                 "SNAPPY" => Compression::SNAPPY,
                 "GZIP" => Compression::GZIP(GzipLevel::default()),
@@ -1424,7 +1454,8 @@ fn parse_props(s: &str, paths: &[ColumnPath]) -> R<Props> {
                 "ZSTD" => Compression::ZSTD(ZstdLevel::default()),
                 "BROTLI" => Compression::BROTLI(BrotliLevel::default()),
                 c => return Err(format!("compression {}", c)),
-            }),
+            })
+            }
             "stats" => b.set_statistics_enabled(match v {
                 "none" => EnabledStatistics::None,
                 "chunk" => EnabledStatistics::Chunk,
@@ -1458,10 +1489,82 @@ fn parse_props(s: &str, paths: &[ColumnPath]) -> R<Props> {
                 jo = v.parse().map_err(|_| "jo")?;
                 b
             }
+            "x" => {
+                // extra writer options that must not change what is read back
+                let x = us(v)?;
+                let mut b2 = b;
+                if x & 1 != 0 {
+                    b2 = b2.set_offset_index_disabled(true);
+                }
+                if x & 2 != 0 {
+                    b2 = b2.set_bloom_filter_position(parquet::file::properties::BloomFilterPosition::End);
+                }
+                if x & 4 != 0 {
+                    b2 = b2.set_column_index_truncate_length(Some(1 + (x >> 12) % 3));
+                }
+                if x & 8 != 0 {
+                    b2 = b2.set_statistics_truncate_length(Some(1 + (x >> 12) % 5));
+                }
+                if x & 16 != 0 {
+                    b2 = b2.set_write_page_header_statistics(true);
+                }
+                if x & 32 != 0 {
+                    b2 = b2
+                        .set_key_value_metadata(Some(vec![parquet::file::metadata::KeyValue::new("k".to_string(), Some("v".to_string()))]))
+                        .set_created_by("verif".to_string());
+                }
+                if x & 64 != 0 {
+                    b2 = b2.set_data_page_v2_compression_ratio_threshold(if x & 4096 != 0 { 100.0 } else { 0.01 });
+                }
+                if x & 128 != 0 {
+                    b2 = b2.set_write_path_in_schema(false);
+                }
+                if x & 256 != 0 {
+                    b2 = b2.set_write_row_group_number_distinct_values(true);
+                }
+                if x & 512 != 0 {
+                    b2 = b2.set_bloom_filter_fpp(0.5);
+                }
+                if x & 2048 != 0 {
+                    // per-column overrides on the first leaf
+                    if let Some(p0) = paths.first() {
+                        b2 = b2
+                            .set_column_compression(p0.clone(), Compression::ZSTD(ZstdLevel::default()))
+                            .set_column_statistics_enabled(p0.clone(), EnabledStatistics::Page)
+                            .set_column_bloom_filter_enabled(p0.clone(), true)
+                            .set_column_bloom_filter_max_ndv(p0.clone(), 10)
+                            .set_column_data_page_size_limit(p0.clone(), 32)
+                            .set_column_dictionary_page_size_limit(p0.clone(), 64)
+                            .set_column_write_page_header_statistics(p0.clone(), true);
+                    }
+                }
+                if x & 1024 != 0 {
+                    b2 = b2.set_sorting_columns(Some(vec![parquet::file::metadata::SortingColumn { column_idx: 0, descending: false, nulls_first: false }]));
+                }
+                b2
+            }
+            "cl" => {
+                // non-default compression level for the codec chosen by `comp` (must come after it)
+                let l = us(v)? as u32;
+                match comp_name.as_str() {
+                    "GZIP" => b.set_compression(Compression::GZIP(GzipLevel::try_new(l % 10).map_err(es)?)),
+                    "ZSTD" => b.set_compression(Compression::ZSTD(ZstdLevel::try_new(1 + (l % 9) as i32).map_err(es)?)),
+                    "BROTLI" => b.set_compression(Compression::BROTLI(BrotliLevel::try_new(l % 5).map_err(es)?)),
+                    _ => b,
+                }
+            }
+            "fin" => {
+                fin = us(v)?;
+                b
+            }
+            "rd" => {
+                rd = us(v)?;
+                b
+            }
             k => return Err(format!("unknown prop {}", k)),
         };
     }
-    Ok(Props { wp: b.build(), par, jo, rg })
+    Ok(Props { wp: b.build(), par, jo, rg, fin, rd })
 }
 
 // ------------------------------------------------------------------------------------------
@@ -1586,13 +1689,46 @@ fn build_steps(schema: &SchemaRef, cols: &[Vec<V>], plan: &Plan) -> R<Vec<Step>>
     Ok(steps)
 }
 
-fn write_plain(schema: &SchemaRef, props: WriterProperties, steps: &[Step]) -> Result<Vec<u8>, parquet::errors::ParquetError> {
+fn write_plain(schema: &SchemaRef, props: WriterProperties, steps: &[Step], fin: usize) -> Result<Vec<u8>, parquet::errors::ParquetError> {
+    if fin == 2 {
+        // `close()` consumes the writer: write through a borrowed buffer
+        let mut buf: Vec<u8> = Vec::new();
+        {
+            let mut w = ArrowWriter::try_new(&mut buf, schema.clone(), Some(props))?;
+            let mut rows = 0usize;
+            for s in steps {
+                match s {
+                    Step::Write(b) => {
+                        w.write(b)?;
+                        rows += b.num_rows();
+                    }
+                    Step::Flush => w.flush()?,
+                }
+            }
+            // accessor consistency on the way
+            let flushed: i64 = w.flushed_row_groups().iter().map(|r| r.num_rows()).sum();
+            if flushed as usize + w.in_progress_rows() != rows {
+                return Err(parquet::errors::ParquetError::General("row accounting".into()));
+            }
+            let md = w.close()?;
+            if md.file_metadata().num_rows() as usize != rows {
+                return Err(parquet::errors::ParquetError::General("row accounting".into()));
+            }
+        }
+        return Ok(buf);
+    }
     let mut w = ArrowWriter::try_new(Vec::new(), schema.clone(), Some(props))?;
     for s in steps {
         match s {
             Step::Write(b) => w.write(b)?,
             Step::Flush => w.flush()?,
         }
+    }
+    if fin == 1 {
+        w.append_key_value_metadata(parquet::file::metadata::KeyValue::new("late".to_string(), None));
+        w.finish()?;
+        // after `finish` the footer is written; `into_inner` would try to write it again
+        return Ok(w.inner().clone());
     }
     w.into_inner()
 }
@@ -1742,13 +1878,28 @@ pub fn run_e2e(toks: &[&str]) -> String {
             Ok(p) => p,
             Err(_) => return "ERR:parse".into(),
         };
-        let bytes = if props.par == 0 { write_plain(&schema, props.wp.clone(), &steps) } else { write_par(&schema, &props, &steps) };
+        let bytes = if props.par == 0 { write_plain(&schema, props.wp.clone(), &steps, props.fin) } else { write_par(&schema, &props, &steps) };
         let bytes = match bytes {
             Ok(b) => bytes::Bytes::from(b),
             Err(e) => return dbg("ERR:write", &e.to_string()),
         };
         let rd = (|| -> Result<(SchemaRef, Vec<RecordBatch>), String> {
-            let b = ParquetRecordBatchReaderBuilder::try_new(bytes).map_err(es)?;
+            if props.rd == 1 {
+                // the short-cut constructor
+                let reader = parquet::arrow::arrow_reader::ParquetRecordBatchReader::try_new(bytes, rbs).map_err(es)?;
+                let sch = reader.schema();
+                let mut out = vec![];
+                for x in reader {
+                    out.push(x.map_err(es)?);
+                }
+                return Ok((sch, out));
+            }
+            let b = if props.rd == 2 {
+                let o = parquet::arrow::arrow_reader::ArrowReaderOptions::new().with_page_index_policy(parquet::file::metadata::PageIndexPolicy::Optional);
+                ParquetRecordBatchReaderBuilder::try_new_with_options(bytes, o).map_err(es)?
+            } else {
+                ParquetRecordBatchReaderBuilder::try_new(bytes).map_err(es)?
+            };
             let sch = b.schema().clone();
             let reader = b.with_batch_size(rbs).build().map_err(es)?;
             let mut out = vec![];
@@ -1988,7 +2139,20 @@ pub fn kf_tags(toks: &[&str]) -> Vec<String> {
         let dict_on = kv.get("dict").map(|v| *v == "1").unwrap_or(true);
         let rg = num("rg", 0);
         let single_rg = (rg == 0 || n <= rg) && num("rgb", 0) == 0 && !has_flush;
-        if !(dict_on && num("dps", 1 << 20) >= 1 << 20 && single_rg) {
+        // a chunk without any non-null value has no dictionary page either
+        let cols: Vec<&str> = toks[6].split(';').collect();
+        let mut empty_chunk = false;
+        for (f, c) in fields.iter().zip(cols.iter()) {
+            let mut fs = Shapes::default();
+            shapes(f.data_type(), &mut fs);
+            if fs.dict_fsb {
+                let mut t = String::new();
+                s_type(f.data_type(), &mut t);
+                let byte_leaves = t.matches("utf8").count() + t.matches("binary").count() + t.matches("fsb(").count();
+                empty_chunk |= !c.contains('x') || (byte_leaves > 1 && c.contains('n'));
+            }
+        }
+        if !(dict_on && num("dps", 1 << 20) >= 1 << 20 && single_rg) || empty_chunk {
             out.push("kf:dict-fsb-plain-page-read-panic".into());
         }
     }
@@ -2040,6 +2204,7 @@ const STRS: &[&str] = &[
     "abc",
     "twelve bytes",
     "thirteen byte",
+    "eleven byte",
     "a string that is longer than twelve bytes",
     "a string that is longer than twelve bytes, and then some",
     "prefix/shared/0001",
@@ -2278,6 +2443,7 @@ fn gen_col(f: &Field, n: usize, rng: &mut Rng) -> Vec<V> {
             apply_nulls(&mut vals, v.is_nullable() && f.is_nullable(), rng);
             return vals;
         }
+        DataType::Null => return vec![V::N; n],
         _ => gen_leaf_col(dt, n, rng, usize::MAX),
     };
     apply_nulls(&mut out, f.is_nullable(), rng);
@@ -2287,6 +2453,7 @@ fn gen_col(f: &Field, n: usize, rng: &mut Rng) -> Vec<V> {
 fn kind_of(dt: &DataType) -> &'static str {
     match dt {
         DataType::Boolean => "bool",
+        DataType::Null => "null",
         DataType::Int8 | DataType::Int16 | DataType::Int32 | DataType::Int64 | DataType::UInt8 | DataType::UInt16 | DataType::UInt32 | DataType::UInt64 => "int",
         DataType::Float16 | DataType::Float32 | DataType::Float64 => "float",
         DataType::Date32 | DataType::Date64 | DataType::Time32(_) | DataType::Time64(_) | DataType::Timestamp(_, _) | DataType::Duration(_) | DataType::Interval(_) => "temporal",
@@ -2322,8 +2489,48 @@ fn gen_enc(ph: Ph, rng: &mut Rng) -> &'static str {
 }
 
 pub fn gen_e2e(rng: &mut Rng, thorough: bool) -> (String, String) {
+    gen_e2e_with(rng, thorough, None, None, "")
+}
+
+/// the dense block: a fixed matrix of schemas x row counts on block / buffer boundaries x writer
+/// configurations, generated in every run (data, plan and reader batch size from a fixed seed)
+pub fn dense_e2e() -> Vec<(String, String)> {
+    let schemas = [
+        "c0:i32?", "c0:i64", "c0:bool?", "c0:f64?", "c0:utf8?", "c0:utf8view?", "c0:binaryview", "c0:largeutf8?", "c0:fsb(3)?",
+        "c0:dec128(20,2)?", "c0:dict(i8,utf8)?", "c0:dict(i32,i64)?", "c0:list<i32?>?", "c0:list<utf8view?>", "c0:largelist<item:i64>?",
+        "c0:fsl(2)<i32?>?", "c0:map<utf8,i32?>?", "c0:struct{a:i32?,b:list<utf8?>?}?", "c0:list<list<i32?>?>?", "c0:listview<i32?>?",
+        "c0:ree(i32)<utf8?>", "c0:null?", "c0:f16?", "c0:interval(dt)?", "c0:ts(ns,UTC)?",
+    ];
+    let sizes = [0usize, 1, 7, 8, 9, 63, 64, 65, 127, 128, 129, 255, 256, 257, 503, 504, 505, 1023, 1024, 1025];
+    let props = [
+        "v=1,dict=1",
+        "v=2,dict=0",
+        "v=2,dict=1,dps=24,rg=64",         // dictionary fallback mid-chunk, several row groups
+        "v=1,dict=0,pg=64,pr=20000,wb=8",  // many small pages
+        "v=2,dict=1,pr=1,rg=100",          // one row per page
+        "v=1,dict=1,rg=1",                 // one row per row group (small sizes only)
+    ];
+    let mut out = vec![];
+    let mut k = 0u64;
+    for (si, sch) in schemas.iter().enumerate() {
+        for (ni, n) in sizes.iter().enumerate() {
+            // every schema meets every size; the configuration rotates
+            let pi = (si + ni) % props.len();
+            if (props[pi].contains("rg=1") && !props[pi].contains("rg=100") && *n > 65) || (props[pi].contains("pr=1") && *n > 300) {
+                continue;
+            }
+            k += 1;
+            let mut rng = Rng::new(0xD0C5 ^ (k << 8));
+            let (line, tags) = gen_e2e_with(&mut rng, false, Some(*n), Some(sch), props[pi]);
+            out.push((line, format!("{} dense", tags)));
+        }
+    }
+    out
+}
+
+fn gen_e2e_with(rng: &mut Rng, thorough: bool, force_n: Option<usize>, force_schema: Option<&str>, force_props: &str) -> (String, String) {
     // rows
-    let n: usize = match rng.below(100) {
+    let n: usize = if let Some(n) = force_n { n } else { match rng.below(100) {
         0..=2 => 0,
         3..=7 => 1,
         8..=47 => 2 + rng.usize(19),
@@ -2336,16 +2543,19 @@ pub fn gen_e2e(rng: &mut Rng, thorough: bool) -> (String, String) {
                 600 + rng.usize(700)
             }
         }
-    };
+    } };
     // schema
     let ncols = if n > 300 { 1 + rng.usize(2) } else { 1 + rng.usize(4) };
-    let mut fields: Vec<Field> = vec![];
-    while fields.len() < ncols {
+    let mut fields: Vec<Field> = match force_schema {
+        Some(t) => p_schema(t).expect("dense schema"),
+        None => vec![],
+    };
+    while force_schema.is_none() && fields.len() < ncols {
         let dt = gen_type(rng, 0);
         if !type_ok(&dt, true) {
             continue;
         }
-        let nullable = rng.chance(2, 3);
+        let (dt, nullable) = if rng.chance(1, 40) { (DataType::Null, true) } else { (dt, rng.chance(2, 3)) };
         fields.push(Field::new(format!("c{}", fields.len()), dt, nullable));
     }
     let cols: Vec<Vec<V>> = fields.iter().map(|f| gen_col(f, n, rng)).collect();
@@ -2434,9 +2644,27 @@ pub fn gen_e2e(rng: &mut Rng, thorough: bool) -> (String, String) {
     } else {
         "0".to_string()
     };
+    // forced configuration of the dense block
+    let fp: HashMap<&str, &str> = force_props.split(',').filter_map(|p| p.split_once('=')).collect();
+    let fnum = |k: &str, d: usize| fp.get(k).and_then(|v| v.parse::<usize>().ok()).unwrap_or(d);
+    let v2 = fp.get("v").map(|x| *x == "2").unwrap_or(v2);
+    let dict_s = fp.get("dict").map(|x| x.to_string()).unwrap_or(dict_s);
+    let (dps, pg, pr, wb, rg) = (fnum("dps", dps), fnum("pg", pg), fnum("pr", pr), fnum("wb", wb), fnum("rg", rg));
     let mut props = format!("v={},enc={},dict={},dps={},pg={},pr={},wb={},rg={},comp={},stats={},bloom={},cdc={},par={}", if v2 { 2 } else { 1 }, enc_s, dict_s, dps, pg, pr, wb, rg, comp, stats, bloom, cdc, par);
     if rgb > 0 {
         write!(props, ",rgb={}", rgb).unwrap();
+    }
+    if rng.chance(1, 3) {
+        write!(props, ",x={}", rng.below(8192)).unwrap();
+    }
+    if rng.chance(1, 4) {
+        write!(props, ",cl={}", rng.below(10)).unwrap();
+    }
+    if par == 0 && rng.chance(1, 3) {
+        write!(props, ",fin={}", 1 + rng.below(2)).unwrap();
+    }
+    if rng.chance(1, 3) {
+        write!(props, ",rd={}", 1 + rng.below(2)).unwrap();
     }
     if par > 0 {
         write!(props, ",jo={}", rng.below(1000)).unwrap();
